@@ -14,7 +14,8 @@ import (
 )
 
 type globalInit struct {
-	kind   string // scalar, slice, array, func
+	fields map[string]*big.Int // struct: scalar integer fields by heap map name
+	kind   string // scalar, slice, array, func, struct
 	scalar *big.Int
 	isBool bool
 	elems  []*big.Int
@@ -108,6 +109,24 @@ func (e *Engine) computeGlobalInits() {
 					if good {
 						e.globalInits[g] = gi
 					}
+				case *types.Struct:
+					ref := x.globalRef(g)
+					l := layoutOf(et)
+					gi := &globalInit{kind: "struct", fields: map[string]*big.Int{}}
+					for i := range l.Fields {
+						fi := &l.Fields[i]
+						if _, _, ok := intInfo(fi.T); !ok {
+							continue
+						}
+						if m, ok := fin.heap.m[fieldMap(fi)]; ok {
+							if v := x.sel(m, ref); v.IsConst() {
+								gi.fields[fi.Name] = v.Val
+							}
+						}
+					}
+					if len(gi.fields) > 0 {
+						e.globalInits[g] = gi
+					}
 				default:
 					if isScalar(et) {
 						if v, ok := fin.ghost[name]; ok && v.IsConst() {
@@ -123,7 +142,7 @@ func (e *Engine) computeGlobalInits() {
 }
 
 // immutableGlobal returns the entry value of an initialised, never re-assigned global.
-func (x *FnCtx) immutableGlobal(g *ssa.Global, et types.Type) (Value, bool) {
+func (x *FnCtx) immutableGlobal(g *ssa.Global, et types.Type, st *State) (Value, bool) {
 	gi := x.eng.globalInits[g]
 	if gi == nil {
 		return nil, false
@@ -131,6 +150,18 @@ func (x *FnCtx) immutableGlobal(g *ssa.Global, et types.Type) (Value, bool) {
 	tb := x.tb
 	x.usedAssumed["global treated as immutable after package initialisation: "+g.Pkg.Pkg.Path()+"."+g.Name()] = true
 	switch gi.kind {
+	case "struct":
+		ref := x.globalRef(g)
+		l := layoutOf(et)
+		for i := range l.Fields {
+			fi := &l.Fields[i]
+			if v, ok := gi.fields[fi.Name]; ok {
+				// immutability: the fact holds in the current heap, whatever happened to it
+				m0 := x.heapGet(st.heap, fieldMap(fi), x.fieldMapSort(fi.T))
+				st.pc = tb.And(st.pc, tb.Eq(tb.Select(m0, ref), x.intConst(v, fi.T)))
+			}
+		}
+		return ref, true
 	case "scalar":
 		if gi.isBool {
 			return tb.Bool(gi.scalar.Sign() != 0), true
@@ -142,8 +173,7 @@ func (x *FnCtx) immutableGlobal(g *ssa.Global, et types.Type) (Value, bool) {
 			ref = tb.Add(ref, tb.IntC(1))
 		}
 		mname := "E." + elemKey(gi.elemT)
-		m0 := tb.Var(mname+"$0", x.contentsSort(gi.elemT))
-		x.heapSorts[mname] = x.contentsSort(gi.elemT)
+		m0 := x.heapGet(st.heap, mname, x.contentsSort(gi.elemT))
 		for i, v := range gi.elems {
 			var c *Term
 			if isBool(gi.elemT) {
@@ -153,7 +183,11 @@ func (x *FnCtx) immutableGlobal(g *ssa.Global, et types.Type) (Value, bool) {
 			} else {
 				c = tb.IntB(v)
 			}
-			x.axiom(tb.Eq(tb.Select(tb.Select(m0, ref), x.idx(int64(i))), c))
+			if m0.Op == "var" {
+				x.axiom(tb.Eq(tb.Select(tb.Select(m0, ref), x.idx(int64(i))), c))
+			} else {
+				st.pc = tb.And(st.pc, tb.Eq(tb.Select(tb.Select(m0, ref), x.idx(int64(i))), c))
+			}
 		}
 		if gi.kind == "array" {
 			return ref, true
